@@ -146,8 +146,8 @@ def functions_for(pid):
     from pyvc.contracts import REGISTRY, LEMMAS
     keys = []
     for key, c in REGISTRY.items():
-        if c.trusted:
-            continue
+        if c.trusted or c.mode == 'inline':
+            continue       # (inline: only loop contracts / kinds for a function that is always verified inside its callers)
         clause_props = set(c.props)
         for cl in c.requires + c.ensures + [x for _, x in c.raises]:
             clause_props |= set(cl.props)
